@@ -5,11 +5,15 @@ named proof obligations that are discharged by z3.
 """
 import ast
 import os
+import sys
 import z3
+
+sys.setrecursionlimit(40000)
 
 from .values import (SymVal, CharStr, PyObj, PyList, SymSeq, PyDict, SymMap, PySet, SymSet,
                      ClassObj, BuiltinClass, EnumMember, FuncObj, BoundMethod, StaticMethod,
-                     PropertyObj, ModuleObj, Builtin, ExcObj, Opaque, Computed, SymMat, SymRowRef, Struct, Segment, _MISSING)
+                     PropertyObj, ModuleObj, Builtin, ExcObj, Opaque, Computed, SymMat, SymRowRef, Struct, Segment,
+                     SymEnumVal, SymNameOf, enum_index, _MISSING)
 from . import ops
 from .ops import to_term, mk, kind_of, is_num
 
@@ -548,19 +552,24 @@ class Interp:
                         raise Unsupported('no model for module %s' % modname)
                     raise Unsupported('cannot import %s from %s' % (a.name, modname))
 
+    MAX_SYMBOLIC_UNROLL = 6
+
     def st_While(self, st, env):
         spec = self.loopspec_for(st, env)
         if spec is not None:
             return self.loop_cut_while(st, env, spec)
         n = 0
+        nsym = 0
         while True:
-            c = self.eval(st.test, env)
-            if isinstance(c, SymVal) or not isinstance(c, (bool, int, type(None), str, float)):
-                tv = self.truth_concrete_or_none(c)
-                if tv is None:
+            d0 = self.dec_idx
+            c = self.truth(self.eval(st.test, env))
+            if self.dec_idx != d0:
+                # the condition depended on symbolic data (it forked): every path is explored completely, which is a
+                # complete case analysis as long as all paths leave the loop within a few iterations
+                nsym += 1
+                if nsym > self.MAX_SYMBOLIC_UNROLL:
                     raise Unsupported('while loop with symbolic condition needs an invariant: %s line %d'
                                       % (self.cur_func_name(), st.lineno))
-                c = tv
             if not c:
                 break
             n += 1
@@ -595,7 +604,8 @@ class Interp:
     def st_For(self, st, env):
         spec = self.loopspec_for(st, env)
         it = self.eval(st.iter, env)
-        if spec is not None and (isinstance(it, (SymSeq, _SymRange)) or spec.cut_concrete):
+        if spec is not None and (isinstance(it, (SymSeq, _SymRange)) or spec.cut_concrete
+                                 or (isinstance(it, PyList) and any(isinstance(x, Segment) for x in it.items))):
             return self.loop_cut_for(st, env, spec, it)
         items = self.iterate(it, allow_symbolic=False, where=st)
         for x in items:
@@ -677,7 +687,11 @@ class Interp:
             if nm in env.vars and nm not in (spec.keep or ()):
                 env.vars[nm] = self.havoc_value(env.vars[nm], nm, spec)
         for target in (spec.modifies or ()):
-            self.havoc_target(target, env, spec)
+            hw = getattr(spec, 'havoc_with', None) or {}
+            if target in hw:
+                hw[target](self, env)
+            else:
+                self.havoc_target(target, env, spec)
 
     def havoc_target(self, target, env, spec):
         """target: spec expression naming a heap location: 'self.x' (attribute) or a container;
@@ -794,6 +808,10 @@ class Interp:
         elif isinstance(it, range) and it.step == 1:
             n = z3.IntVal(max(0, it.stop - it.start))
             getter = lambda i: mk(it.start + i, 'int')
+        elif isinstance(it, PyList) and len(it.items) == 1 and isinstance(it.items[0], Segment):
+            sg = it.items[0]
+            n = sg.n
+            getter = lambda i: self.seg_elem(sg, sg.off + i)
         else:
             raise Unsupported('loop invariant on non-symbolic for loop in %s' % self.cur_func_name())
         idx_name = spec.index or '_i'
@@ -996,6 +1014,8 @@ class Interp:
             return mk(z3.Concat(to_term(a), to_term(b)), 'str')
         if a is None or b is None or isinstance(a, (PyObj, EnumMember)) or isinstance(b, (PyObj, EnumMember)):
             self.raise_builtin('TypeError', 'unsupported operand type(s) for %s' % op)
+        if op == '*' and ((kind_of(a) == 'str' and kind_of(b) in ('int', 'bool')) or (kind_of(b) == 'str' and kind_of(a) in ('int', 'bool'))):
+            return self.opaque_str('repeated')
         if (is_num(a) and kind_of(b) == 'str') or (is_num(b) and kind_of(a) == 'str'):
             self.raise_builtin('TypeError', 'unsupported operand type(s) for %s' % op)
         raise Unsupported('binop %s on %r, %r' % (op, a, b))
@@ -1070,6 +1090,8 @@ class Interp:
     def identical(self, a, b):
         a = getattr(a, 'orig', None) or a
         b = getattr(b, 'orig', None) or b
+        if isinstance(a, SymEnumVal) or isinstance(b, SymEnumVal):
+            return self.enum_eq(a, b)
         if isinstance(a, SymVal) and isinstance(b, SymVal):
             if a.k != b.k:
                 return False
@@ -1089,7 +1111,25 @@ class Interp:
             raise Unsupported('`is` between symbolic scalar and %r' % (o,))
         return a is b
 
+    def enum_eq(self, a, b):
+        if isinstance(a, SymEnumVal) and isinstance(b, SymEnumVal):
+            return mk(a.t == b.t, 'bool') if a.cls is b.cls else False
+        s_, o = (a, b) if isinstance(a, SymEnumVal) else (b, a)
+        if isinstance(o, EnumMember) and o.cls is s_.cls:
+            return mk(s_.t == enum_index(o), 'bool')
+        return False
+
+    def enum_members_feasible(self, v):
+        """fork over the members a symbolic enum value can still be; returns the concrete member"""
+        ms = list(v.cls.members.values())
+        for i, m in enumerate(ms):
+            if self.branch(v.t == i, 'enum-member'):
+                return m
+        raise PathEnd()
+
     def equals(self, a, b):
+        if isinstance(a, SymEnumVal) or isinstance(b, SymEnumVal):
+            return self.enum_eq(a, b)
         if isinstance(a, SymVal) or isinstance(b, SymVal):
             ka, kb = kind_of(a), kind_of(b)
             if ka in ops.NUMK and kb in ops.NUMK:
@@ -1374,7 +1414,11 @@ class Interp:
             if self.volatile and not self.spec_mode and (id(obj), name) in self.volatile:
                 return self.volatile[(id(obj), name)](self, obj, name)
             if name in attrs:
-                return attrs[name]
+                v = attrs[name]
+                if isinstance(v, Computed):         # lazily materialised field (abstract pre-states)
+                    v = v.fn(self, obj)
+                    obj.attrs[name] = v
+                return v
             if name == '__class__':
                 return obj.cls
             v = obj.cls.lookup(name)
@@ -1406,6 +1450,16 @@ class Interp:
             if isinstance(v, PropertyObj):
                 return v
             return v
+        if isinstance(obj, SymEnumVal):
+            if name == 'name':
+                fnm = z3.Function('enum_name_' + obj.cls.name, z3.IntSort(), z3.StringSort())
+                return SymNameOf(fnm(obj.t), obj)
+            if name == 'value':
+                return mk(obj.t + 1, 'int')
+            v = obj.cls.lookup(name)
+            if v is _MISSING:
+                return _MISSING
+            return self.bind(v, obj)
         if isinstance(obj, EnumMember):
             if name == 'name':
                 return obj.name
@@ -1604,6 +1658,11 @@ class Interp:
                 arr = self.old_snapshot[id(obj.mat)]
             return mk_elem(z3.Select(z3.Select(arr, obj.r), t), 'atom')
         if isinstance(obj, ClassObj) and obj.is_enum:
+            if isinstance(idx, SymNameOf) and not idx.lowered:
+                m = self.enum_members_feasible(idx.src)
+                if m.name in obj.members:
+                    return obj.members[m.name]
+                self.raise_builtin('KeyError', m.name)
             if isinstance(idx, str):
                 if idx in obj.members:
                     return obj.members[idx]
@@ -2068,7 +2127,7 @@ class Interp:
                                % (fn.name, next(iter(kwargs))))
         return local
 
-    MAX_DEPTH = 60
+    MAX_DEPTH = 150
 
     def call_func(self, fn, args, kwargs):
         if not self.spec_mode:
@@ -2100,6 +2159,8 @@ class Interp:
             return None
         c = self.contracts.get((self.relpath(fn.module), fn.qualname))
         if c is None or not c.modular:
+            return None
+        if c.group is not None and c.group not in getattr(self, 'active_groups', ()):
             return None
         return c
 
